@@ -2598,20 +2598,31 @@ func runC20ProviderShutdown(c *Ctx) {
 		f := calleeOf(ci)
 		return f != nil && f.Name() == "Shutdown" && strings.Contains(f.FullName(), "ConfigProvider")
 	}
-	for _, g := range p.AllSrcFuncs(opk) {
-		if g.Parent() != nil {
-			continue
-		}
-		ps := calls(g, isProvShut)
-		if len(ps) == 0 {
-			continue
-		}
-		via := map[ssa.Instruction]bool{}
-		for _, x := range ps {
-			via[x.(ssa.Instruction)] = true
-		}
-		if esc, _ := reachesReturnWithout(g, nil, via); !esc {
-			shuts[g] = true
+	// (to a fixed point: a helper may itself reach the provider's Shutdown through a helper that does so on every path)
+	for changed := true; changed; {
+		changed = false
+		for _, g := range p.AllSrcFuncs(opk) {
+			if g.Parent() != nil || shuts[g] {
+				continue
+			}
+			ps := calls(g, func(ci ssa.CallInstruction) bool {
+				if _, isGo := ci.(*ssa.Go); isGo {
+					return false
+				}
+				sf := staticCalleeFn(ci)
+				return isProvShut(ci) || (sf != nil && shuts[sf])
+			})
+			if len(ps) == 0 {
+				continue
+			}
+			via := map[ssa.Instruction]bool{}
+			for _, x := range ps {
+				via[x.(ssa.Instruction)] = true
+			}
+			if esc, _ := reachesReturnWithout(g, nil, via); !esc {
+				shuts[g] = true
+				changed = true
+			}
 		}
 	}
 	via := map[ssa.Instruction]bool{}
